@@ -273,7 +273,9 @@ pub fn name_spec_key(n: &NameSpec) -> String {
 pub struct CidrSpec {
 	pub addr: Vec<u8>,
 	pub prefix: u8,
-	/// 0 from_v4/v6_prefix, 1 from_addr_prefix, 2 from_str, 3 explicit (addr, mask) variant
+	/// 0 from_v4/v6_prefix, 1 from_addr_prefix, 2 from_str, 3 explicit (addr, mask) variant,
+	/// 4 explicit variant with a mask that is NOT a prefix (one bit of the prefix mask moved): the API
+	/// takes any mask, and what is given is what must be written and read back
 	pub ctor: u8,
 }
 
@@ -284,7 +286,7 @@ impl CidrSpec {
 	/// model: the first min(prefix, width) bits set
 	pub fn mask(&self) -> Vec<u8> {
 		let p = (self.prefix as usize).min(self.width());
-		(0..self.addr.len())
+		let mut m: Vec<u8> = (0..self.addr.len())
 			.map(|i| {
 				let bits = p.saturating_sub(i * 8).min(8);
 				if bits == 0 {
@@ -293,7 +295,18 @@ impl CidrSpec {
 					(0xffu16 << (8 - bits)) as u8
 				}
 			})
-			.collect()
+			.collect();
+		if self.ctor == 4 {
+			if p >= 3 {
+				// 1 0 1 ...: a hole in the second bit
+				m[0] &= !0x40;
+			} else {
+				// a lone bit at the far end
+				let last = m.len() - 1;
+				m[last] |= 0x01;
+			}
+		}
+		m
 	}
 	pub fn expected_bytes(&self) -> Vec<u8> {
 		let mut v = self.addr.clone();
@@ -848,7 +861,7 @@ pub fn gen_cidr(rng: &mut Rng) -> CidrSpec {
 	CidrSpec {
 		addr,
 		prefix,
-		ctor: rng.below(4) as u8,
+		ctor: rng.below(5) as u8,
 	}
 }
 
